@@ -53,6 +53,13 @@ def run(F, X, rep):
     # for a payment without stored state the time to wait is the configured timeout itself, so non-zero means entered
     import rules_lc as R
     C = R.Ctx.get(F, X)
+    # the gates are reached by every classified trampoline HTLC that has a forward amount (nothing else turns it away
+    # with `continue` before them)
+    import rules_hh as HHn
+    import rules_lc as Rn
+    Cn = Rn.Ctx.get(F, X)
+    if HHn.need_hh(Cn, rep, "C12-N"):
+        HHn.n1_continue_paths_effect_free(Cn, rep, "C12-N")
     import p_c19
     import rules_hh as HHq
     import rules_lc as Rq
